@@ -128,7 +128,7 @@ func replayModel(pkgPath, fn string, mdl map[string]interface{}, tier string, ra
 	}
 	args = append(args, pkgPath)
 	cmd := exec.Command("go", args...)
-	cmd.Dir = filepath.Join(verifRoot, "engine")
+	cmd.Dir = moduleDir
 	cmd.Env = append(os.Environ(), "GOFLAGS=-mod=mod", "GOPROXY=off", "GOSUMDB=off", "GOTOOLCHAIN=local",
 		"VERIF_MODEL="+mPath, "VERIF_TIER="+tier)
 	if race {
@@ -442,8 +442,8 @@ func cmdCheck(args []string) {
 			}
 		}
 	}
-	// Replays: candidates that match a listed known finding are replayed one by one
-	// (each listed finding is printed only if it still reproduces); the others are
+	// Replays: candidates that match a listed known finding are replayed (at most three
+	// per identity; each listed finding is printed only if it still reproduces); the others are
 	// grouped by (kind, tag, site) and at most three of a group are replayed — one
 	// confirmed member makes the group a violation. Replays run eight at a time.
 	type job struct {
@@ -469,6 +469,14 @@ func cmdCheck(args []string) {
 		if j.known == nil {
 			perGroup[j.group]++
 			if perGroup[j.group] > 3 {
+				j.skipped = true
+			}
+		} else {
+			// candidates with the same identity (harness, kind, tag, site) as a listed finding:
+			// three replays tell whether it still reproduces
+			k := "known|" + ident
+			perGroup[k]++
+			if perGroup[k] > 3 {
 				j.skipped = true
 			}
 		}
@@ -585,8 +593,12 @@ func cmdCheck(args []string) {
 	}
 	ev := evidence{PropertyID: id, Tier: *tier, Seed: seed, Level: level, Coverage: cov,
 		Assumptions: assumptionsFor(id, allNotes), WallS: time.Since(t0).Seconds(), Violations: len(violations)}
-	os.MkdirAll(filepath.Join(verifRoot, "evidence"), 0o755)
-	if err := writeJSON(filepath.Join(verifRoot, "evidence", id+".json"), ev); err != nil {
+	evDir := filepath.Join(verifRoot, "evidence")
+	if os.Getenv("VERIF_REPO") != "" {
+		evDir = filepath.Join(verifRoot, "out", "alt")
+	}
+	os.MkdirAll(evDir, 0o755)
+	if err := writeJSON(filepath.Join(evDir, id+".json"), ev); err != nil {
 		fail(err)
 	}
 	fmt.Printf("property=%s tier=%s harnesses=%d paths=%d obligations=%d discharged=%d undischarged=%d unsupported-kinds=%d candidates=%d violations=%d known=%d unconfirmed=%d wall=%.1fs\n",
